@@ -57,7 +57,8 @@ def units_contract(seed, tier):
         lo, hi = float(p0.Min), float(p0.Max)
         if not (lo > -1e29 and hi < 1e29 and hi > lo):
             continue
-        samples = [lo + (hi - lo) * 0.37, lo + (hi - lo) * 0.61]
+        fracs = (0.37, 0.61) if tier != "thorough" else (0.001, 0.05, 0.21, 0.37, 0.5, 0.61, 0.83, 0.999)
+        samples = [lo + (hi - lo) * f_ for f_ in fracs]
         for u in _catalogue(p0):
             ustr = str(u.value)
             if not ustr.strip():
@@ -116,7 +117,7 @@ def units_contract(seed, tier):
         if bad:
             viol.append({"name": f"{kind} unit '{ustr}': {clause}", "failing": sorted(set(bad))[:6], "count": len(set(bad))})
     return {"bound": f"{n_eval} real ReadParameter runs: every distinct float parameter declaration x every catalogue unit of its "
-                     f"kind x 2 in-range sample values", "evaluations": n_eval, "unit_clause_pairs": len(results),
+                     f"kind x {len(fracs)} in-range sample values", "evaluations": n_eval, "unit_clause_pairs": len(results),
             "violations": viol, "labelled": "bounded - not counted as proved"}
 
 
